@@ -111,7 +111,9 @@ pub fn cmd_abi(a: &[&str]) -> String {
     let first = a.get(0).copied().unwrap_or("");
     // `dirty:<scenario>`: the caller's clockbound_err already holds an error (SYSCALL, errno 2) from an earlier call
     let dirty = first.starts_with("dirty:");
-    let scen = first.strip_prefix("dirty:").unwrap_or(first);
+    // `nullerr:<scenario>`: the C caller passes err = NULL (clockbound.h: "if err is non-null, fills *err"): the optional out-parameter
+    let nullerr = first.starts_with("nullerr:");
+    let scen = first.strip_prefix("dirty:").or_else(|| first.strip_prefix("nullerr:")).unwrap_or(first);
     match scen {
         "rec" => {
             let v: Vec<i64> = a[1..].iter().map(|x| x.parse().unwrap_or(0)).collect();
@@ -170,8 +172,12 @@ pub fn cmd_abi(a: &[&str]) -> String {
                 crate::ffi::clockbound_close(c0);
             }
         }
-        let ctx = crate::ffi::clockbound_open(cpath.as_ptr(), &mut err);
+        let errp: *mut crate::ffi::clockbound_err = if nullerr { std::ptr::null_mut() } else { &mut err };
+        let ctx = crate::ffi::clockbound_open(cpath.as_ptr(), errp);
         if ctx.is_null() {
+            if nullerr {
+                return "open_err".to_string();
+            }
             return format!("open_err:kind={}:errno={}", err.kind as i32, err.errno);
         }
         // the result structure exactly as clockbound.h declares it to a C program
@@ -235,8 +241,35 @@ pub fn cmd_abi2(a: &[&str]) -> String {
             let _ = crate::ffi::clockbound_now(ctx, res0.as_mut_ptr() as *mut crate::ffi::clockbound_now_result);
             clock_off();
         }
+        if mode == "breachthenok" || mode == "malformedthenok" {
+            // both clients are first asked at a moment at which the call must fail (monotonic clock 2 s before as-of: causality
+            // breach / a record with a drift of 1e9 ppb: malformed), then at a moment / on a record for which it must answer:
+            // an earlier failure on the same context must not stick
+            if mode == "malformedthenok" {
+                use std::io::{Seek, SeekFrom, Write};
+                let mut f0 = std::fs::OpenOptions::new().write(true).open(&p2).expect("open for patch");
+                f0.seek(SeekFrom::Start(16)).unwrap();
+                f0.write_all(&record_bytes((100, 0), (1100, 0), 5000, 1_000_000_000, 1)).unwrap();
+                f0.seek(SeekFrom::Start(14)).unwrap();
+                f0.write_all(&4u16.to_ne_bytes()).unwrap();
+            }
+            let early = if mode == "breachthenok" { 98i128 * 1_000_000_000 } else { mono };
+            set_clock(real, early);
+            let _ = rc.now();
+            clock_off();
+            set_clock(real, early);
+            let mut res0: std::mem::MaybeUninit<[u8; 64]> = std::mem::MaybeUninit::zeroed();
+            let _ = crate::ffi::clockbound_now(ctx, res0.as_mut_ptr() as *mut crate::ffi::clockbound_now_result);
+            clock_off();
+        }
         let mut f = std::fs::OpenOptions::new().write(true).open(&p2).expect("open for patch");
         match mode.as_str() {
+            "malformedthenok" => {
+                f.seek(SeekFrom::Start(16)).unwrap();
+                f.write_all(&record_bytes((100, 0), (1100, 0), 5000, 1000, 1)).unwrap();
+                f.seek(SeekFrom::Start(14)).unwrap();
+                f.write_all(&6u16.to_ne_bytes()).unwrap();
+            }
             "growbound" => {
                 f.seek(SeekFrom::Start(16)).unwrap();
                 f.write_all(&record_bytes((100, 0), (1100, 0), 5_000_000_000, 1000, 1)).unwrap();
